@@ -638,7 +638,28 @@ func encodeCP(cp int) string {
 	return string(rune(cp))
 }
 
+// blockCfg selects the bounds of the input families
+type blockCfg struct {
+	L        int  // alphabet strings up to this many symbols
+	bytesLen int  // 2: every byte string of length <= 2 (256 blocks); 1: the 256 single bytes only (4 blocks)
+	maxRep   int  // boundary lengths up to this repeat count
+	long     bool // the 1 MiB strings
+	cpEnd    int  // code points below this bound
+	// cpAlone: the code point also alone (otherwise inside a?& only); cpCore: on the core routes only
+	cpAlone, cpCore func(base int) bool
+}
+
 func blocks(thorough bool) []block {
+	L := 5
+	if thorough {
+		L = 6
+	}
+	return buildBlocks(blockCfg{L: L, bytesLen: 2, maxRep: 1 << 20, long: true, cpEnd: 0x110000,
+		cpAlone: func(base int) bool { return thorough || base < 0x3000 },
+		cpCore:  func(base int) bool { return !thorough && base >= 0x3000 }})
+}
+
+func buildBlocks(cfg blockCfg) []block {
 	var bs []block
 	// 1. specials: empty, single significant characters, the five together
 	bs = append(bs, block{family: "special", key: "0-special/basic", gen: func(f func(string)) {
@@ -648,7 +669,15 @@ func blocks(thorough bool) []block {
 		}
 	}})
 	// 2. every byte string of length <= 2, one block per first byte
-	for a := 0; a < 256; a++ {
+	for a := 0; a < 256 && cfg.bytesLen == 1; a += 64 {
+		a := a
+		bs = append(bs, block{family: "bytes1", key: fmt.Sprintf("1-bytes1/%02x", a), gen: func(f func(string)) {
+			for b := a; b < a+64; b++ {
+				f(string([]byte{byte(b)}))
+			}
+		}})
+	}
+	for a := 0; a < 256 && cfg.bytesLen == 2; a++ {
 		a := a
 		bs = append(bs, block{family: "bytes2", key: fmt.Sprintf("1-bytes2/%02x", a), gen: func(f func(string)) {
 			f(string([]byte{byte(a)}))
@@ -673,10 +702,7 @@ func blocks(thorough bool) []block {
 		}})
 	}
 	// 4. every string of length <= L over the alphabet, blocks of 111 strings
-	L := 5
-	if thorough {
-		L = 6
-	}
+	L := cfg.L
 	P := L - 2 // blocks are keyed by a prefix of P symbols and hold the 111 strings of length P..L with that prefix
 	bs = append(bs, block{family: "alpha", key: fmt.Sprintf("3-alpha/0-len<%d", P), gen: func(f func(string)) {
 		level := []string{""}
@@ -724,25 +750,31 @@ func blocks(thorough bool) []block {
 		unit := unit
 		bs = append(bs, block{family: "length", key: fmt.Sprintf("4-length/%q", unit), gen: func(f func(string)) {
 			for _, n := range []int{6, 7, 8, 9, 15, 16, 17, 31, 32, 33, 63, 64, 65, 127, 128, 129, 255, 256, 257, 1023, 1024, 1025, 4095, 4096, 4097, 65535, 65536, 65537} {
+				if n > cfg.maxRep {
+					break
+				}
 				f(strings.Repeat(unit, n))
 				f(strings.Repeat("a", n) + unit)
 			}
 		}})
 	}
 	for i, unit := range []string{"a", "<>&\"'", "é\xff&", "&amp;"} {
+		if !cfg.long {
+			break
+		}
 		unit := unit
 		bs = append(bs, block{family: "long", key: fmt.Sprintf("5-long/1MiB/%d", i), gen: func(f func(string)) {
 			f(strings.Repeat(unit, (1<<20)/len(unit)+1))
 		}})
 	}
 	// 6. every code point, alone and embedded in a?&, blocks of 32
-	for base := 0; base <= 0x10FFFF; base += 32 {
+	for base := 0; base < cfg.cpEnd; base += 32 {
 		base := base
-		bs = append(bs, block{family: "codepoint", key: fmt.Sprintf("6-cp/%06x", base), onlyCore: !thorough && base >= 0x3000,
+		bs = append(bs, block{family: "codepoint", key: fmt.Sprintf("6-cp/%06x", base), onlyCore: cfg.cpCore(base),
 			gen: func(f func(string)) {
 				for cp := base; cp < base+32; cp++ {
 					s := encodeCP(cp)
-					if thorough || base < 0x3000 {
+					if cfg.cpAlone(base) {
 						f(s)
 					}
 					f("a" + s + "&")
@@ -931,10 +963,22 @@ func main() {
 				t.Case("0-nonstring/"+nv.name, func() *vlib.Outcome { return runNonString(nv, main, multis) })
 				t.Case("0-nonstring/"+nv.name+"#"+side[0].name, func() *vlib.Outcome { return runNonString(nv, side, nil) })
 			}
+			// operand shapes (shapes.go): the escaped expression is a compound expression whose parts
+			// carry filters of their own
+			for _, nv := range nonStrings() {
+				nv := nv
+				t.Case("7-shape/0-nonstring/"+nv.name, func() *vlib.Outcome { return runShapeNonString(nv) })
+			}
+			for _, b := range shapeBlocks(t.Thorough()) {
+				b := b
+				t.Case("7-shape/"+b.key, func() *vlib.Outcome { return runShapeBlock(t, b) })
+			}
 		},
 		Extra: func(tier string, cov map[string]interface{}) {
 			cov["routes"] = len(allRoutes())
 			cov["multi_value_routes"] = len(allMultis())
+			cov["operand_shapes"] = len(shapes)
+			cov["shape_positions"] = len(shapePositions)
 			cov["filter_names"] = filterNames
 		},
 	})
